@@ -146,6 +146,7 @@ pub fn run(ctx: &Ctx, out: &mut CaseOut) {
                         };
                         db.calls.set(0);
                         db.panic_at.set(None);
+                        let stale_before = is_slg && slg_goal_table_stale(&mut slg_s, &pj.goal);
                         let o2 = if is_slg { solve(&mut slg_s, &db, &pj.goal) } else { solve(&mut *s, &db, &pj.goal) };
                         let d = |obs: &str| {
                             detail(&w.text, &w.goals[gi].0, &choice)
@@ -172,9 +173,15 @@ pub fn run(ctx: &Ctx, out: &mut CaseOut) {
                                     let ambig = |s: &Option<Solution<I>>| s.as_ref().map_or(false, |s| s.is_ambig());
                                     let sig = if is_slg && requeued && ((trivial(&a) && ambig(fj)) || (trivial(fj) && ambig(&a))) {
                                         Some("slg:trivial-answer-green-cut-order")
-                                    } else if is_slg && a.is_none() && fj.is_some() && slg_stale_table(&mut slg_s, &pj.goal) {
+                                    } else if is_slg && a.is_none() && fj.is_some() && (stale_before || slg_stale_table(&mut slg_s, &pj.goal)) {
                                         // F11: the tables the crashed solve left behind are read by the retry in another order
                                         Some("slg:stale-delayed-answer-table")
+                                    } else if is_slg && fj.is_none() && a.is_some() && fresh_slg_stale(&l, &pj.goal) {
+                                        Some("slg:stale-delayed-answer-table")
+                                    } else if is_slg && log.is_empty() && ((ambig(fj) && matches!(&a, Some(Solution::Unique(_)))) || (fj.is_some() && a.is_none())) && slg_unrefined_root_answer(&mut slg_s, &pj.goal) {
+                                        // F33: the fault hit between publishing a conditional root answer and queueing its
+                                        // refinement strand (stack already empty, so nothing is restored by Drop)
+                                        Some("slg:refinement-strand-lost-on-panic")
                                     } else if is_slg && requeued {
                                         let warm_sub = slg_subsumed_answers(&mut slg_s);
                                         slg_order_signature(&disp(&a), warm_sub, &disp(fj), fresh_slg_subsumed(&l, &pj.goal))
@@ -182,6 +189,11 @@ pub fn run(ctx: &Ctx, out: &mut CaseOut) {
                                         None
                                     };
                                     let _ = only_lost_answers;
+                                    if std::env::var_os("VERIF_TRACE").is_some() && is_slg {
+                                        for t in slg_s.verif_tables() {
+                                            eprintln!("[table] {} co={} answers={} cond={} strands={} delayed={:?}", t.goal_body, t.coinductive, t.answers, t.answers_with_delayed_subgoals, t.strands, t.delayed_goals);
+                                        }
+                                    }
                                     out.violation(sig, format!("{}: after a callback panic at call {}, solving `{}` on the same solver gives `{}`; a fresh solver gives `{}`", solver_name(&choice), n, w.goals[gj].0, disp(&a), disp(fj)), d(&disp(&a)));
                                     break;
                                 }
